@@ -13,6 +13,21 @@ CLAIMED = {
     text='Theorems (all n, all edge lists, all distances): the condensed enumeration is exactly the pairs i<j in scipy order; the overwrite loop of _calc_groups equals half-open intervals for every non-decreasing edge list; partition/uniqueness; classes, counts and the experimental vector are the estimator over exactly those pairs. Tied to the code on every run by a differential run of the extracted and in-Coq model against Variogram (groups, class contents, counts, alignment of distances and differences, sparse path), plus a brute-force oracle of the property statement.',
     note='Estimator formulas: exact-Q models of Matheron/Dowd/Genton compared with estimators.py; Cressie-Hawkins compared with the documented formula in floating point by the oracle only. Genton order statistic index read as the code has it (binom(N/2+1,2)).',
     technique='Coq proof (induction over lists) + extracted-model correspondence + brute-force oracle', ref='3 C01'),
+ 'C02': dict(
+    text='Theorems for every n, distance list and maxlag: the clipping of maxlag never exceeds the largest distance and honours an absolute value; relative/absolute resolution; even-width edges are n, strictly increasing, equal-width and end exactly at the effective maximum lag; uniform edges are defined, n, non-decreasing and <= the maximum lag (monotonicity and bounds of numpy\'s linear-interpolated quantile proved from a verified insertion sort); mid-point edges of sorted cluster centres and rule-based linspace edges are monotone and bounded. Tied to binning.py / the maxlag setter / bins / n_lags by three differential streams (through Variogram, direct calls on distance multisets, maxlag assigned in place) plus the property statement as oracle.',
+    note='Opaque: the bin count chosen by np.histogram_bin_edges and the centres found by KMeans / AgglomerativeClustering (their contract - sorted centres inside the data range - is checked per case). stable_entropy excluded by the property.',
+    technique='Coq proof over Q (quantile monotonicity, linspace algebra) + extracted-model correspondence + oracle', ref='3 C02'),
+ 'C10': dict(
+    text='Theorems: a permutation of the points permutes the condensed vector of any symmetric pair function, hence every lag class keeps its multiset (same counts) and the Matheron value; rigid motions and reflections keep squared euclidean distances (for all c,s with c^2+s^2=1); value shift leaves every difference unchanged; value scaling multiplies differences by |k| and the Matheron semivariance by k^2; coordinate scaling by s>0 scales even edges by s and leaves the group of every pair unchanged. Tie: C01 structure correspondence on every base configuration + metamorphic runs of the implementation (9 transformations incl. in-place value exchange).',
+    note='PARTIAL: permutation invariance and the k^2 law are proved for Matheron only; for Dowd / Genton / Cressie-Hawkins they are exercised by the metamorphic runs (tested, not proved).',
+    technique='Coq proof (induction on Permutation, ring identities) + metamorphic differential runs', ref='3 C10'),
+ 'C11': dict(
+    text='Theorems: the sparse path lists exactly the stored strict-lower-triangle entries (explicit zeros included), distance and difference vectors aligned entry by entry; classes/counts depend only on the multiset of (distance, difference) pairs; pairs at or beyond the last edge never count. Tie: model of triangular_distance_matrix/_format_values_stack run against the implementation; oracle builds every configuration three ways (raw coordinates + absolute maxlag, shared dense MetricSpace, MetricSpace(max_dist)) and compares edges, counts, variogram.',
+    note='cKDTree.sparse_distance_matrix ("all pairs within r, true distances") is a trusted leaf, checked per case. Known findings F10b, F17, F18 (see known_findings.json).',
+    technique='Coq proof over lists + extracted-model correspondence + three-way differential oracle', ref='3 C11'),
+ 'C16': dict(
+    text='Theorems: the elementwise product of the two condensed difference vectors is, position by position, |dz1|*|dz2| of the same point pair (for all n); commutativity of that product (table symmetry); binning identical to C01 (lag_class is polymorphic in the pairwise quantity). Tie: two-column Variogram configurations against the model and the brute-force oracle; cross_variograms tables (2-4 variables, isotropic and directional): symmetry, diagonal = ordinary variogram; former cross-variogram instances given one-column values.',
+    note='As C01.', technique='Coq proof over lists + extracted-model correspondence + table oracle', ref='3 C16'),
 }
 
 PENDING_REASON = 'check not built yet in this round (work in progress; the property is within reach of the technique, see DESIGN.md section 3)'
